@@ -34,7 +34,7 @@ PROPERTY = "C18"
 EXPLANATION = "C18: _structure on interaction trees with symbolic shape attributes against a declarative specification of nodes and edges; export vs no export on the template corpus."
 STUBBED_NAMES = hashmodel.STUBBED_NAMES
 ASSUMPTIONS = ["representation invariant of interaction trees assumed by tree.*: equal signature => equal function and subtree; a loaded path is in the resolved references or kept earlier in traversal order; kept paths do not overlap", "export.*: rendering (pydot -> graphviz) runs untraced; ideal-hash model; clock stub"]
-OUTSIDE = ["trees deeper than 3 levels or with more than 2 calls per function", "the rendered image (only the dot text is parsed back)"]
+OUTSIDE = ["tree.*: the generated trees list every call once; the trees dds builds list a kept call twice (kept call + un-kept reference to the same function) - that shape is covered by export.* on templates only", "trees deeper than 3 levels or with more than 2 calls per function (tree.wide: 4 / 5 siblings, depth 2)", "the rendered image (only the dot text is parsed back)"]
 FUNCTIONS_ENCODED = ["dds._plotting._structure", "dds._plotting.build_graph", "dds._plotting.draw_graph", "dds._api._eval_new_ctx (export hook)"]
 BOUNDS = {"quick": {"tree": "root + 2 calls + 1..2 calls below each (<= 7 nodes); every combination of kept flags x named-argument flags of the calls that have an earlier sibling; shared-signature (same path / other path) and load flags in separate queries; tree.wide: root + 4 siblings, the first a kept node S, each later one of 6 kinds (kept / with arguments / calling S again), 6^3 x 4 trees", "export": ["T1", "T3", "T4", "T5", "T6", "T7", "T8", "T9"]}}
 BOUNDS["thorough"] = dict(BOUNDS["quick"], tree=BOUNDS["quick"]["tree"] + "; tree.wide5: root + 5 siblings (6^4 x 4 trees)")
